@@ -220,3 +220,30 @@ def check_forwarder(ctx, rule, key, fn, callee, arg_checks, wrappers=("Result::m
         found = (r, wr)
     ctx.ok(rule, key, "forwards: " + short(paths[0].ret, 8), fn.at())
     return found
+
+
+def closure_paths(ctx, clo):
+    """Paths of a closure body with its captured variables replaced by the expressions the
+    parent put into the closure aggregate.  `clo` = ('agg','closure',id,ops).  The closure's own
+    parameters stay ('param', i) with i >= 2 (param 1 is the environment)."""
+    from .sym import subst_params, Path
+    fn = ctx.F.fns.get(clo[2])
+    if fn is None:
+        return None
+    ctx.fns_analysed.add(fn.id)
+    mapping = {}
+    for i, cap in enumerate(fn.captures):
+        if i < len(clo[3]):
+            mapping[("upvar", cap["var"], i)] = clo[3][i]
+    out = []
+    for p in ctx.paths(fn):
+        memo = {}
+        ev = []
+        for e in p.events:
+            if e[0] == "call":
+                ev.append(("call", subst_params(e[1], mapping, memo)))
+            else:
+                ev.append(e)
+        out.append(Path([(subst_params(c[0], mapping, memo), c[1], c[2]) for c in p.conds], ev,
+                        subst_params(p.ret, mapping, memo) if p.ret is not None else None, p.end, p.blocks))
+    return out
